@@ -18,6 +18,7 @@ CASES = [
  ("C01", "data/relationships.py", "        if number is None:\n            number = self.row_vocabulary.number(id, \"none\")", "        if not number:\n            number = self.row_vocabulary.number(id, \"none\")", "break"),
  ("C02", "pipeline/components.py", "    if primary is not None:\n        return primary\n    else:\n        return fallback.get()", "    return primary or fallback.get()", "break"),
  ("C02", "pipeline/components.py", "    if primary is not None:\n        return primary\n    else:\n        return fallback.get()", "    if primary is None:\n        return fallback.get()\n    return primary", "keep"),
+ ("C02", "pipeline/runner.py", "DeferredRun(self, iname, name, snode, required=ireq, data_type=itype)", "DeferredRun(self, iname, name, snode, required=required, data_type=itype)", "break"),
  ("C02", "pipeline/runner.py", "                if val is None and required and isinstance(node, InputNode):", "                if val is None and isinstance(node, InputNode):", "break"),
  ("C02", "pipeline/runner.py", "            elif required:\n                # the node was skipped earlier because nothing required it\n                raise PipelineError(f\"no data available for required node {node}\")\n            else:\n                return None", "            else:\n                return None", "break"),
  ("C02", "pipeline/runner.py", "        if val is None and required and types and not is_compatible_data(None, *types):", "        if val is None and types and not is_compatible_data(None, *types):", "break"),
